@@ -104,6 +104,13 @@ def tables_and_cursor(rep, idx, spec, table, obj, named):
                     "differs from the stop when the range has a step, i.e. for dense windows)")
         else:
             rep.unk("C02.4", site, f"self._next_addr = {ir.show(v)[:80]}", "unrecognised cursor update")
+    # the tables are keyed by id(object): a second insertion of the same object must be refused, or two ranges
+    # would share one table entry (and the object would be reported twice under one name)
+    from .c07 import guards_with_context
+    gs = guards_with_context(c.fi)
+    dup = ir.norm(ir.parse(f"id({obj}) in self.{table}"))
+    rep.check(any(t_ == dup and e_ == "ValueError" for t_, cs_, lp_, e_, ln_ in gs), "C02.4", site,
+              f"the same {obj} object cannot be added twice (ValueError)", f"no `if id({obj}) in self.{table}: raise ValueError`")
     # each of the three effects happens on every path that inserts (they post-dominate the insertion)
     fg = apirules.graph(idx, c.fi)
     g = fg.g
